@@ -13,6 +13,8 @@ import (
 	"github.com/NVIDIA/KAI-scheduler/pkg/common/constants"
 )
 
+const minGpuFraction = 0.01
+
 func ValidateGpuRequests(pod *v1.Pod) error {
 	gpuFractionFromAnnotation, hasGpuFractionAnnotation := pod.Annotations[constants.GpuFraction]
 	gpuMemoryFromAnnotation, hasGpuMemoryAnnotation := pod.Annotations[constants.GpuMemory]
@@ -83,6 +85,11 @@ func validateGpuFractionAnnotation(hasGpuFractionAnnotation bool, gpuFractionFro
 	if gpuFractionErr != nil || !(gpuFraction > 0 && gpuFraction < 1) {
 		return fmt.Errorf(
 			"gpu-fraction annotation value must be a positive number smaller than 1.0")
+	}
+	// GPU portions are accounted by the scheduler and handed to the container (GPU_PORTION) with two decimals:
+	// a smaller fraction would be scheduled as a pod that requests no GPU at all and would receive a portion of 0.00
+	if gpuFraction < minGpuFraction {
+		return fmt.Errorf("gpu-fraction annotation value must be at least %v", minGpuFraction)
 	}
 	return nil
 }
